@@ -342,6 +342,8 @@ macro_rules! graph_op {
                 1 => Some(Cutoff::PartialEq),
                 2 => Some(Cutoff::Never),
                 3 => Some(Cutoff::Fn(|a, b| a == b)),
+                // coarser than equality: entries in the same pair of values do not propagate
+                4 => Some(Cutoff::Fn(|a, b| a.div_euclid(2) == b.div_euclid(2))),
                 _ => None,
             }
         };
@@ -373,11 +375,12 @@ pub fn gen_plan(prop: &str, seed: u64) -> Plan {
     let mut r = Rng::stream(seed, 1);
     let mut sched = Rng::stream(seed, 3);
     let op = match prop {
-        "C16" => Op::Graph {
-            filter: r.chance(1, 2),
-            cutoff: r.below(4) as u8,
-            f: *r.pick(&[PerKey::PureMap, PerKey::Map2Outer, PerKey::BindOnValue, PerKey::BindOnOuter, PerKey::IgnoresInput, PerKey::SharedNode]),
-        },
+        "C16" => {
+            let cutoff = r.below(5) as u8;
+            // (the coarse cutoff only with functions that read the outer variable, see the run loop)
+            let f = if cutoff == 4 { *r.pick(&[PerKey::Map2Outer, PerKey::BindOnOuter]) } else { *r.pick(&[PerKey::PureMap, PerKey::Map2Outer, PerKey::BindOnValue, PerKey::BindOnOuter, PerKey::IgnoresInput, PerKey::SharedNode]) };
+            Op::Graph { filter: r.chance(1, 2), cutoff, f }
+        }
         "C15" => match r.below(9) {
             0 => Op::Map,
             1 => Op::FilterMap,
@@ -491,6 +494,9 @@ pub fn run_on_this_thread(plan: &Plan, keep_trace: bool) -> RunOutput {
         let state = IncrState::new();
         let ws = state.weak();
         let mut cur: [B; 2] = [cfg.init0.iter().copied().collect(), cfg.init1.iter().copied().collect()];
+        let mut outer_at_needed_stab: Option<i64> = None;
+        let mut all_keys_fresh = false;
+        let coarse = matches!(cfg.op, Op::Graph { cutoff: 4, .. });
         let mut outer_val = 1i64;
         let outer: Var<i64> = state.var(outer_val);
         let shared: Incr<i64> = outer.map(|o| norm(*o * 2));
@@ -642,6 +648,15 @@ pub fn run_on_this_thread(plan: &Plan, keep_trace: bool) -> RunOutput {
                 XAct::Stabilise => {
                     calls.log.borrow_mut().clear();
                     let needed = observers.iter().flatten().count() > 0;
+                    // under a cutoff coarser than equality an output may lag behind its entry; but a
+                    // change of the outer variable makes every per-key node that reads it run again, on
+                    // the entry's current value (the engine stores a result even when it is cut off)
+                    if needed {
+                        all_keys_fresh = outer_at_needed_stab != Some(outer_val);
+                        outer_at_needed_stab = Some(outer_val);
+                    } else {
+                        all_keys_fresh = false;
+                    }
                     state.stabilise();
                     rounds += 1;
                     stabilised = true;
@@ -710,7 +725,7 @@ pub fn run_on_this_thread(plan: &Plan, keep_trace: bool) -> RunOutput {
                     }
                     continue;
                 }
-                if stabilised {
+                if stabilised && (!coarse || all_keys_fresh) {
                     let mut exp = reference(&cfg, &cur[0], &cur[1], outer_val);
                     if *outi == 1 {
                         exp = [(0i64, exp.len() as i64)].into_iter().collect();
